@@ -13,36 +13,36 @@ package armor
 
 //@ func (*armoredWriter).Write(a, p) (n, err)
 //@   requires awinv(a)
-//@   call io.WriteString#1 requires arg0 == a.dst && arg1 == HEADERLINE && !old(a.started)                                         [C05 C08]
-//@   call WrappedBase64Encoder).Write#1 requires arg0 == a.encoder && same(arg1, p) && a.started                                    [C08 C12]
+//@   call io.WriteString#1 requires arg0 == a.dst && arg1 == HEADERLINE && !old(a.started)                                         [C01 C05 C08]
+//@   call WrappedBase64Encoder).Write#1 requires arg0 == a.encoder && same(arg1, p) && a.started                                    [C01 C08 C12]
 //@   ensures#inv awinv(a)
-//@   ensures#full err == nil ==> n == len(p) && a.started                                                                           [C08 C12]
+//@   ensures#full err == nil ==> n == len(p) && a.started                                                                           [C01 C08 C12]
 //@   ensures#hdrerr (!old(a.started) && !a.started) ==> err != nil && n == 0 && a.encoder.$acc == old(a.encoder.$acc)                [C08 C13]
 //@   ensures#mono old(a.started) ==> a.started                                                                                      [C08]
-//@   ensures#hdrwritten (!old(a.started) && a.started) ==> hasprefix(a.dst.$out, cat(old(a.dst.$out), HEADERLINE))                    [C08 C13]
+//@   ensures#hdrwritten (!old(a.started) && a.started) ==> hasprefix(a.dst.$out, cat(old(a.dst.$out), HEADERLINE))                    [C01 C08 C13]
 //@   modifies a.started, a.dst.$out, a.encoder.$acc, a.encoder.written, a.encoder.buf.$bbuf
 
 //@ func (*armoredWriter).Close(a) (err)
 //@   requires awinv(a)
 //@   call WrappedBase64Encoder).Close#1 requires arg0 == a.encoder                                                                  [C08 C13]
-//@   call io.WriteString#0 requires arg0 == a.dst && (arg1 == HEADERLINE || arg1 == FOOTERLINE || arg1 == NLFOOTERLINE)              [C05 C08]
+//@   call io.WriteString#0 requires arg0 == a.dst && (arg1 == HEADERLINE || arg1 == FOOTERLINE || arg1 == NLFOOTERLINE)              [C01 C05 C08]
 //@   ensures#twice old(a.closed) ==> err != nil && a.dst.$out == old(a.dst.$out)                                                     [C08 C13]
 //@   ensures#closed a.closed                                                                                                        [C08]
-//@   ensures#hdr (!old(a.closed) && err == nil) ==> a.started                                                                        [C08]
+//@   ensures#hdr (!old(a.closed) && err == nil) ==> a.started                                                                        [C01 C05 C08]
 //@   ensures#text (!old(a.closed) && err == nil && old(a.started)) ==> a.dst.$out == cat(a.encoder.$out0, wrapcols(0, encof(a.encoder.$enc, a.encoder.$acc)), (len(encof(a.encoder.$enc, a.encoder.$acc)) % 64 == 0 ? FOOTERLINE : NLFOOTERLINE))   [C05 C08 C13 C01]
 //@   modifies a.closed, a.started, a.dst.$out, a.encoder.written, a.encoder.buf.$bbuf
 
 //@ func NewWriter(dst) (wc)
 //@   requires dst != nil
 //@   ensures#type typeis(wc, "*filippo.io/age/armor.armoredWriter")                                                                  [C08]
-//@   ensures#init cast(wc, "filippo.io/age/armor.armoredWriter").dst == dst && !cast(wc, "filippo.io/age/armor.armoredWriter").started && !cast(wc, "filippo.io/age/armor.armoredWriter").closed && awinv(cast(wc, "filippo.io/age/armor.armoredWriter"))   [C08]
-//@   call NewWrappedBase64Encoder#1 requires arg0 == base64.StdEncoding && arg1 == dst                                               [C05 C08]
+//@   ensures#init cast(wc, "filippo.io/age/armor.armoredWriter").dst == dst && !cast(wc, "filippo.io/age/armor.armoredWriter").started && !cast(wc, "filippo.io/age/armor.armoredWriter").closed && awinv(cast(wc, "filippo.io/age/armor.armoredWriter"))   [C01 C05 C08]
+//@   call NewWrappedBase64Encoder#1 requires arg0 == base64.StdEncoding && arg1 == dst                                               [C01 C05 C08]
 
 //@ func NewReader(r) (rd)
 //@   requires r != nil
 //@   call bufio.NewReader#1 requires arg0 == r                                                                                      [C12]
 //@   ensures#type typeis(rd, "*filippo.io/age/armor.armoredReader")                                                                 [C08 C12]
-//@   ensures#init !cast(rd, "filippo.io/age/armor.armoredReader").started && cast(rd, "filippo.io/age/armor.armoredReader").err == nil && len(cast(rd, "filippo.io/age/armor.armoredReader").unread) == 0   [C08 C12]
+//@   ensures#init !cast(rd, "filippo.io/age/armor.armoredReader").started && cast(rd, "filippo.io/age/armor.armoredReader").err == nil && len(cast(rd, "filippo.io/age/armor.armoredReader").unread) == 0   [C01 C08 C12]
 
 //@ pred arinv(r) := r.r != nil && len(r.unread) <= 48 && (len(r.unread) > 0 ==> rg(r.unread) == rg(r.buf)) && ((r.err != nil && r.err != io.EOF) ==> typeis(r.err, "*filippo.io/age/armor.Error"))
 
@@ -79,18 +79,18 @@ package armor
 //@   loop 1 invariant arinv(r) && r.err == nil && len(r.unread) == 0 && 0 <= removedWhitespace && removedWhitespace <= 1024 && issuffix(r.r.$rem, old(r.r.$rem)) && old(r.err) == nil && len(old(r.unread)) == 0
 //@   loop 1 invariant#wsbound r.started || len(old(r.r.$rem)) - len(r.r.$rem) <= 2 * removedWhitespace                              [C08 C14]
 //@   loop 1 invariant#noerr lasterr("Read$1",1) == nil
-//@   loop 1 invariant#begin (r.started && !old(r.started)) ==> lastbytes("Read$1",1,0) == "-----BEGIN AGE ENCRYPTED FILE-----"   [C05 C08]
+//@   loop 1 invariant#begin (r.started && !old(r.started)) ==> lastbytes("Read$1",1,0) == "-----BEGIN AGE ENCRYPTED FILE-----"   [C01 C05 C08]
 //@   loop 1 decreases len(r.r.$rem) + (r.started ? 0 : 1)
 //@   ensures#inv arinv(r)
 //@   ensures#n 0 <= n && n <= len(p)                                                                                               [C12 C14]
-//@   ensures#sticky (old(r.err) != nil && len(old(r.unread)) == 0) ==> n == 0 && err == old(r.err) && r.err == old(r.err) && r.r.$rem == old(r.r.$rem)   [C08 C13]
+//@   ensures#sticky (old(r.err) != nil && len(old(r.unread)) == 0) ==> n == 0 && err == old(r.err) && r.err == old(r.err) && r.r.$rem == old(r.r.$rem)   [C08 C13 C14]
 //@   ensures#stored err != nil ==> r.err == err && n == 0                                                                           [C08 C13 C14]
 //@   ensures#type (err != nil && err != io.EOF) ==> typeis(err, "*filippo.io/age/armor.Error")                                       [C08 C14]
 //@   ensures#clean err != nil ==> len(r.unread) == 0                                                                                [C08 C13 C14]
-//@   ensures#nonempty (len(old(r.unread)) == 0 && old(r.err) == nil && err == nil) ==> len(r.unread) + n > 0                         [C08]
-//@   ensures#shortlast (len(old(r.unread)) == 0 && old(r.err) == nil && err == nil && len(r.unread) + n < 48) ==> r.err != nil        [C08]
-//@   ensures#oneline (len(old(r.unread)) == 0 && old(r.err) == nil && err == nil && old(r.started)) ==> len(r.unread) + n <= 48       [C08 C12]
-//@   ensures#buffered len(old(r.unread)) > 0 ==> err == nil && n == min(len(p), len(old(r.unread))) && sub(bytes(p), 0, n) == sub(old(bytes(r.unread)), 0, n) && r.r.$rem == old(r.r.$rem)   [C08 C12]
+//@   ensures#nonempty (len(old(r.unread)) == 0 && old(r.err) == nil && err == nil) ==> len(r.unread) + n > 0                         [C01 C08]
+//@   ensures#shortlast (len(old(r.unread)) == 0 && old(r.err) == nil && err == nil && len(r.unread) + n < 48) ==> r.err != nil        [C01 C08]
+//@   ensures#oneline (len(old(r.unread)) == 0 && old(r.err) == nil && err == nil && old(r.started)) ==> len(r.unread) + n <= 48       [C01 C08 C12]
+//@   ensures#buffered len(old(r.unread)) > 0 ==> err == nil && n == min(len(p), len(old(r.unread))) && sub(bytes(p), 0, n) == sub(old(bytes(r.unread)), 0, n) && r.r.$rem == old(r.r.$rem)   [C01 C08 C12 C13]
 //@   call Decode#1 requires len(arg2) <= 64 && len(arg1) == 48 && arg0.$strictstd                                                    [C05 C08 C14]
 //@   call Decode#1 requires nocrlf(bytes(arg2))                                                                                     [C08]
 //@   call Decode#1 requires same(arg2, lastret("Read$1",2,0)) && rg(arg1) == rg(r.buf) && off(arg1) == 0                              [C01 C08]
@@ -99,8 +99,8 @@ package armor
 //@   ensures#srcerr1 lasterr("Read$1",1) != nil ==> err != nil && wraps(err, lasterr("Read$1",1))                                    [C13 C14]
 //@   ensures#srcerr2 lasterr("Read$1",2) != nil ==> err != nil && wraps(err, lasterr("Read$1",2))                                    [C13 C14]
 //@   ensures#srcerr3 lasterr("Read$1",3) != nil ==> err != nil && wraps(err, lasterr("Read$1",3))                                    [C13 C14]
-//@   ensures#begin (r.started && !old(r.started)) ==> lastbytes("Read$1",1,0) == "-----BEGIN AGE ENCRYPTED FILE-----"           [C05 C08]
-//@   ensures#data (len(old(r.unread)) == 0 && old(r.err) == nil && err == nil) ==> sub(bytes(p), 0, n) == sub(stdb64dec(lastbytes("Read$1",2,0)), 0, n) && bytes(r.unread) == sub(stdb64dec(lastbytes("Read$1",2,0)), n, n + len(r.unread)) && n + len(r.unread) == len(stdb64dec(lastbytes("Read$1",2,0)))   [C01 C08 C12]
+//@   ensures#begin (r.started && !old(r.started)) ==> lastbytes("Read$1",1,0) == "-----BEGIN AGE ENCRYPTED FILE-----"           [C01 C05 C08]
+//@   ensures#data (len(old(r.unread)) == 0 && old(r.err) == nil && err == nil) ==> sub(bytes(p), 0, n) == sub(stdb64dec(lastbytes("Read$1",2,0)), 0, n) && bytes(r.unread) == sub(stdb64dec(lastbytes("Read$1",2,0)), n, n + len(r.unread)) && n + len(r.unread) == len(stdb64dec(lastbytes("Read$1",2,0)))   [C01 C05 C08 C12]
 //@   modifies r.started, r.unread, r.buf, r.err, r.r.$rem, r.r.$bufd, r.r.$under.$rem, p[:]
 
 
